@@ -59,17 +59,21 @@ func (S *LevelDbStore) GetCertRevocationStatus(issuer *pkix.RDNSequence, certSer
 	s := issuer.String() + "_" + certSerial.String()
 	hash := hashing.Sum64(s)
 	revokedCertBytes, err := S.Db.Get(hash, nil)
-	revoked := false
-	var revokedCert *pkix.RevokedCertificate
-	if err == nil {
-		revokedCert, err = S.Serializer.DeserializeRevokedCert(revokedCertBytes)
-		revoked = true
-		if err != nil {
-			return nil, fmt.Errorf("could not deserialize revoked cert: %v", err)
-		}
+	if errors.Is(err, leveldb.ErrNotFound) {
+		return &core.RevocationStatus{
+			Revoked:             false,
+			CRLRevokedCertEntry: nil,
+		}, nil
+	}
+	if err != nil {
+		return nil, fmt.Errorf("could not read revoked cert from store: %v", err)
+	}
+	revokedCert, err := S.Serializer.DeserializeRevokedCert(revokedCertBytes)
+	if err != nil {
+		return nil, fmt.Errorf("could not deserialize revoked cert: %v", err)
 	}
 	return &core.RevocationStatus{
-		Revoked:             revoked,
+		Revoked:             true,
 		CRLRevokedCertEntry: revokedCert,
 	}, nil
 }
